@@ -226,7 +226,7 @@ class Ctx:
         rc = 0
         vio_paths = []
         for i, v in enumerate(self.violations[:20]):
-            p = os.path.join(self.evdir, "replays", "%s-%d-%d.json" % (self.pid, self.seed, i))
+            p = os.path.join(self.evdir, "replays", "%s-%d-%d%s.json" % (self.pid, self.seed, i, "-replayed" if self.replay else ""))
             with open(p, "w") as fo:
                 json.dump(dict(property=self.pid, sig=v["sig"], desc=v["desc"], replay=v["replay"]), fo, indent=1, ensure_ascii=False)
             vio_paths.append(p)
@@ -303,7 +303,7 @@ def parse_tlc(outp):
                 res.ok = True
             if line.startswith("Error: Invariant") or "is violated" in line:
                 res.invariant_violated = line.strip()
-            if ": 0" in line and line.rstrip().endswith(": 0") and line.startswith("<"):
+            if line.startswith("<") and re.search(r">: 0(:0)?\s*$", line):
                 res.coverage_zero.append(line.strip())
     res.raw = "".join(lines[-400:])
     return res
